@@ -444,6 +444,7 @@ fn selftest(cfg: &Cfg) -> Result<(), String> {
         (f("record A { x: { f: A }? }", "type_cycle_via_argument"), "{ f: A }?"),
         (f("record A[T] { x: A[i32]? }", "type_cycle_via_argument"), "A[i32]?"),
         (known::may_die("const C: i32 = 1 / 0;"), "may_die const"),
+        (!known::may_die("const K: i32 = 7;\nfn f(x: i32) -> i32 { x / 2 } // c"), "may_die const elsewhere"),
     ];
     for (ok, what) in checks {
         if !ok {
